@@ -486,7 +486,34 @@ def r4_value_nesting(ctx):
                     "%s:%s" % (st.file, st.line) if st is not None else None)
 
 
-RULES = [r1_inventory, r2_recursion, r3_loops, r4_value_nesting, shared]
+def r5_append_length(ctx):
+    """The other unbounded growth: BAppend / VAppend concatenate lazily (catvec keeps a tree of chunks), so `Dup; BAppend` doubles a byte string at a constant
+    cost of weight; after 64 doublings its length no longer fits in usize and catvec's length bookkeeping overflows — a panic with overflow checks, a wrapped
+    length without (D32).  Necessary: an append is guarded by a bound on the resulting length.  None exists today."""
+    r = ctx.rule("R5", "a MelVM append (BAppend / VAppend) is guarded by a bound on the resulting length", positional=False)
+    st = ctx.prog.body("melvm::executor::Executor::step")
+    if st is None:
+        r.undecided("append-length", "Executor::step not found")
+        return
+    sites = []
+    for c in ctx.prog.all_nested(st):
+        for bi, e in q.all_call_exprs(c):
+            if e[0] == "call" and e[1].split("::")[-1] == "append" and "CatVec" in e[1]:
+                guards = [cn for e_, cn, b_ in q.cmp_atoms(c) if "len(" in cn and ("Lt(" in cn or "Le(" in cn or "Gt(" in cn or "Ge(" in cn)]
+                sites.append((c, bi, guards))
+    if not sites:
+        r.undecided("append-length", "no CatVec::append in the interpreter")
+        return
+    r.floor("append sites", len(sites), 2)
+    bad = [(c, bi) for c, bi, g in sites if not g]
+    if bad:
+        r.violation("append-length/unbounded", "%d of %d CatVec::append sites in Executor::step have no length test: `PushB [1]; Loop(70,2){Dup; BAppend}` (10 bytes, weight 996) "
+                    "doubles a byte string 70 times and overflows catvec's length arithmetic — the validator panics (overflow checks) or carries a wrapped length" % (len(bad), len(sites)), bad[0][0].where(bad[0][1]))
+    else:
+        r.undecided("append-length", "the appends are preceded by length comparisons: whether they bound the result is not decided")
+
+
+RULES = [r1_inventory, r2_recursion, r3_loops, r4_value_nesting, r5_append_length, shared]
 
 
 def thorough_extra(ctx):
